@@ -53,6 +53,14 @@ thread_local! {
     static IN_GUARD: RefCell<bool> = RefCell::new(false);
 }
 
+pub fn last_panic() -> String {
+    LAST_PANIC.with(|p| p.borrow().clone())
+}
+
+pub fn current_case() -> Value {
+    CURRENT_CASE.lock().ok().and_then(|c| serde_json::from_str(&c).ok()).unwrap_or(Value::Null)
+}
+
 pub fn install_panic_hook() {
     std::panic::set_hook(Box::new(|info| {
         let loc = info
